@@ -616,7 +616,7 @@ def gen_ped_case(rng):
     num = rng.sample(range(0, 64), n)                # numeric id of INDEX k (arbitrary, != index in general)
     rel_order = rng.sample(rtrios, len(rtrios))      # relationships in any order (grandchild's trio may come first)
     trios = [[index_of_role[f], index_of_role[m], index_of_role[c]] for f, m, c in rel_order]
-    ncols = rng.randrange(1, 4 if len(trios) < 3 else 3)
+    ncols = rng.randrange(1, 4 if len(trios) < 3 else 2)
     distrust = rng.random() < 0.6
     den = rng.choice([1, 4]) if distrust else 1
     truth = {}
@@ -672,7 +672,11 @@ def ped_py_inst(case):
 def run_ped_impl(case):
     from whatshap.core import Read, ReadSet, Pedigree, PedigreeDPTable, Genotype, PhredGenotypeLikelihoods
     n = len(case["num"])
-    names = {f"s{k}": case["num"][k] for k in range(n)}
+    from whatshap.core import NumericSampleIds
+    of_num = {case["num"][k]: f"s{k}" for k in range(n)}
+    names = NumericSampleIds()          # hands out 0, 1, 2, … in the order of first use: burn the numbers in between
+    for v in range(max(case["num"]) + 1):
+        assert names[of_num.get(v, f"unused{v}")] == v
     rs = ReadSet()
     for j, r in enumerate(case["reads"]):
         rd = Read(f"read{j:04d}", 50, 0, case["num"][r["ind"]])
@@ -1111,7 +1115,7 @@ def run(ctx):
     run_u32([gen_big(rng) for _ in range((150 if ctx.quick else 3000) * ctx.scale)])
 
     # ---- the pedigree glue (ids != indices, any insertion / relationship order, deep pedigrees, fractional likelihoods)
-    run_ped([gen_ped_case(rng) for _ in range((300 if ctx.quick else 6000) * ctx.scale)])
+    run_ped([gen_ped_case(rng) for _ in range((120 if ctx.quick else 3000) * ctx.scale)])
 
     # ---- table-based column cost == direct column cost (the incremental table of the code)
     tab_reqs, tab_meta = [], []
